@@ -125,6 +125,8 @@ Step == n < MaxSteps /\ n' = n + 1
 Publish(d, txt, pol) ==
   /\ Step /\ ~Due
   /\ pub[d] # [txt |-> txt, pol |-> pol]
+  \* generation only: publishing twice in a row for one domain is the same as publishing once
+  /\ Gen => (hist = <<>> \/ hist[Len(hist)].a # "Publish" \/ hist[Len(hist)].d # d)
   /\ pub' = [pub EXCEPT ![d] = [txt |-> txt, pol |-> pol]]
   /\ obs' = ObsPublish(obs, d, txt, pol)
   /\ hist' = H([a |-> "Publish", d |-> d, txt |-> txt, ver |-> pol.ver, age |-> pol.age])
@@ -159,7 +161,7 @@ Rank(d) == CASE d = "d1" -> 1 [] d = "d2" -> 2 [] d = "d3" -> 3 [] OTHER -> 4
 Before(d, S) == \A x \in S : Rank(d) < Rank(x)      \* d precedes every member of S in file-name order
 
 AutoRefresh(plan) ==
-  /\ Step /\ Due
+  /\ n <= MaxSteps /\ n' = n + 1 /\ Due
   /\ \A d \in Domains : (plan[d] = "store" => cfg.kind = "fs") /\ (d \notin Listed => plan[d] = "ok")
   /\ LET done == {d \in Listed : Before(d, Crashing)}
          f(d) == Fetch(d, now + Window, plan[d])
@@ -191,8 +193,8 @@ Corrupt(d, kind) ==
   /\ UNCHANGED <<cfg, now, pub, nextRef, taken>>
 
 Finish ==
-  /\ n < MaxSteps + 1 /\ n >= 1 /\ ~Due
-  /\ n' = MaxSteps + 1
+  /\ n \in {MaxSteps, MaxSteps + 1} /\ ~Due
+  /\ n' = MaxSteps + 2
   /\ obs' = ObsEnd(obs)
   /\ hist' = H([a |-> "End"])
   /\ IF Gen THEN PrintT(<<"BEH", ToJson([cfg |-> cfg, hist |-> hist'])>>) ELSE TRUE
